@@ -110,7 +110,8 @@ def run(ctx):
                         why = "ballot weight %s is not the caller's stored VOTERS weight" % show(W)[:160]
                     else:
                         reads = group_reads(W)
-                        good = len(reads) == 1 and reads[0][0] == "smart" and reads[0][2] == ("field", stored, "start_height")
+                        sh_ = ("field", stored, "start_height")
+                        good = len(reads) == 1 and reads[0][0] == "smart" and reads[0][2] in (sh_, ("variant", OPTION, "Some", (("0", sh_),)))
                         if good:
                             q = reads[0][1]
                             mem = [y for y in walk(q) if y[0] == "variant" and y[2] == "Member"]
